@@ -30,6 +30,12 @@ Catalogue == <<
   << Col(<<111>>, 6, 1, 0) >>                                                      \* 9: OPTIONAL BYTE_ARRAY
 >>
 
+\* schema ids above 100: id - 100 columns c000, c001, ... (INT32 / INT64 / BYTE_ARRAY cycling, REQUIRED and OPTIONAL
+\* alternating): the widths around the Thrift list-header boundary (15 elements) and beyond one-byte varints (128)
+WideSchema(n) == [i \in 1..n |-> Col(<<99, 48 + ((i - 1) \div 100), 48 + (((i - 1) \div 10) % 10), 48 + ((i - 1) % 10)>>,
+                                     <<1, 2, 6>>[((i - 1) % 3) + 1], (i - 1) % 2, 0)]
+SchemaOf(sid) == IF sid > 100 THEN WideSchema(sid - 100) ELSE Catalogue[sid]
+
 \* run-structured null patterns of length n: runs of lengths from RunLens alternating present/null
 RunLens == {1, 2, 7, 8, 9, 16}
 RECURSIVE RunPatterns(_, _)
@@ -45,8 +51,8 @@ Init == WInit /\ hist = <<>> /\ plan = [stage |-> "schema"]
 
 GCreate == /\ plan.stage = "schema"
            /\ \E s \in SchemaIds : \E r \in 1..Replicas :
-                 /\ Create(Catalogue[s])
-                 /\ hist' = <<[op |-> "Create", cols |-> Catalogue[s]]>>
+                 /\ Create(SchemaOf(s))
+                 /\ hist' = <<[op |-> "Create", cols |-> SchemaOf(s)]>>
                  /\ plan' = [stage |-> "rg", sid |-> s, groups |-> 0, base |-> 0, r |-> r]
 
 \* start a row group: choose its row count and the null pattern of every OPTIONAL column
